@@ -51,6 +51,18 @@ def posterior_native(vc):
     prior_var = np.diag(gp.cov(q, q, gp.cov_hyperpars))
     vc.ensures("variance_between_zero_and_prior", bool(np.all(np.diag(cov_c) >= -1e-8 * scale)
                                                        and np.all(sd_p ** 2 <= prior_var + 1e-8 * scale)))
+    # "any query points": the training inputs themselves are query points like any other (the posterior there is NOT the data
+    # when there is noise), given as the same values, the same array object, or a reordering of it
+    for q_t in (np.array(x, dtype=float), x, x[::-1].copy()):
+        mu_tc, cov_tc = closed_form(gp, np.asarray(q_t, dtype=float))
+        sc_t = max(1.0, float(np.abs(cov_tc).max()), float(np.abs(mu_tc).max()))
+        mu_tj, cov_tj = gp.build_posterior(q_t)
+        mu_to = gp.build_posterior(q_t, mean_only=True)
+        mu_tp, sd_tp = gp(q_t)
+        vc.ensures("posterior_at_the_training_inputs_is_closed_form", bool(
+            np.allclose(mu_tj, mu_tc, rtol=1e-7, atol=1e-6 * sc_t) and np.allclose(cov_tj, cov_tc, rtol=1e-6, atol=1e-6 * sc_t)
+            and np.allclose(mu_to, mu_tc, rtol=1e-7, atol=1e-6 * sc_t) and np.allclose(mu_tp, mu_tc, rtol=1e-7, atol=1e-6 * sc_t)
+            and np.allclose(sd_tp ** 2, np.abs(np.diag(cov_tc)), rtol=1e-6, atol=1e-6 * sc_t)))
     # the state depends on the VALUES of the hyper-parameters only: the caller re-uses one array object, changing its contents in
     # place between set_hyperparameters calls (what an optimiser working on one parameter buffer does)
     work = np.array(theta, dtype=float) + 0.05 * rng.normal(size=len(theta))
